@@ -573,6 +573,10 @@ func (r *FnRun) callByContract(fr *Frame, st *State, ct *Contract, names []strin
 		env.what = ct.Name + " requires " + cl.Label
 		r.obligeClause("PRE", fmt.Sprintf("%s@%s:%s", what, where, cl.Label), cl.E, env, st)
 	}
+	// the vacuity guard compares with the path as it stands once the callee's
+	// preconditions hold: a path on which they fail is reported as a PRE
+	// obligation, not as a contradictory contract
+	preCtx = st.ctx
 	for i, a := range args {
 		borrowed := false
 		for _, b := range ct.Borrows {
